@@ -10,7 +10,7 @@ from hypothesis import strategies as st
 from .. import arr as A
 from .. import unit as U
 from .. import modelslice as MS
-from ..core import sstr, Failure, drive
+from ..core import sstr, Failure, drive, drive_enum
 from ..gen import arrays as G
 from ..ref import commands as R
 
@@ -389,7 +389,65 @@ def check_netcdf(case, rec):
         shutil.rmtree(tmp, ignore_errors=True)
 
 
-PARTS = {"unit": check_unit, "csv": check_csv, "model": check_model, "netcdf": check_netcdf}
+def marker_cases():
+    """A NetCDF variable of each stored type, read with a marker of its own: cells that are a different number from
+    the marker -- however close to it in another number representation -- stay present."""
+    for store, datatype in (("f8", "Float"), ("i8", "Integer"), ("u8", "Positive Integer"), ("u8", "Integer"), ("i8", "Float"), ("f8", "Positive Float")):
+        for marker in (-9999, -1, 0, 7, 250000, -2 ** 31):
+            cells = [5, 250000, 7, 0, 3]
+            if store == "u8":
+                cells += [2 ** 64 + marker if marker < 0 else 2 ** 64 - 1 - marker, 2 ** 63, 2 ** 64 - 1]
+            elif store == "i8":
+                cells += [-marker, 2 ** 62, -2 ** 63 + 1] + ([marker] if marker < 0 else [])
+            else:
+                cells += [float(marker) + 0.5, -float(marker), 1e300] + ([marker] if marker < 0 and not datatype.startswith("Positive") else [])
+            if datatype == "Positive Float":
+                cells = [abs(c) for c in cells]
+            if datatype == "Integer" and store == "u8":
+                cells = [c for c in cells if c < 2 ** 63]
+            if datatype == "Float" and store == "i8":
+                cells = [c for c in cells if abs(c) < 2 ** 53]
+            for rev in (False, True):
+                yield {"store": store, "datatype": datatype, "marker": marker, "cells": cells[::-1] if rev else cells}
+
+
+def check_marker(case, rec):
+    import tempfile
+    import shutil
+    from mpilot.program import EEMS_NETCDF_LIBRARIES, Program
+
+    from . import c18
+
+    tmp = tempfile.mkdtemp(prefix="vcheck-c03-")
+    try:
+        cells = case["cells"]
+        path = os.path.join(tmp, "in.nc")
+        c18.make_template(path, [{"name": "x", "size": len(cells), "values": list(range(len(cells)))}],
+                          [{"name": "V", "dtype": case["store"], "data": cells, "mask": None, "fill": None}])
+        text = 'V = EEMSRead(InFileName = "%s", InFieldName = "V", DataType = "%s", MissingValue = %d)\nOut = Copy(InFieldName = V)' % (
+            path, case["datatype"], case["marker"])
+        sig = "EEMSRead|netcdf_marker/%s/%s" % (case["store"], case["datatype"].replace(" ", ""))
+        rec.label("netcdf_marker:%s/%s" % (case["store"], case["datatype"]))
+        try:
+            prog = Program.from_source(text, libraries=EEMS_NETCDF_LIBRARIES)
+            prog.run()
+        except Exception as exc:
+            rec.exclude("netcdf_program_does_not_run:%s" % A.exc_name(exc))
+            return []
+        rec.nontrivial_case(["marker", case])
+        want = [c == case["marker"] for c in cells]
+        for name in ("V", "Out"):
+            got = numpy.ma.getmaskarray(prog.commands[name].result).tolist()
+            if got != want:
+                i = [a != b for a, b in zip(got, want)].index(True)
+                return [Failure(sig + ("|mask_lost" if want[i] else "|valid_cell_missing"),
+                                "%s: cell %d holds %r, MissingValue is %r: missing=%r\n%s" % (name, i, cells[i], case["marker"], got[i], text))]
+        return []
+    finally:
+        shutil.rmtree(tmp, ignore_errors=True)
+
+
+PARTS = {"unit": check_unit, "csv": check_csv, "model": check_model, "netcdf": check_netcdf, "marker": check_marker}
 
 
 def run_shard(ctx, rec):
@@ -397,3 +455,4 @@ def run_shard(ctx, rec):
     drive(ctx, rec, "unit", payload_case(), check_unit, ctx.n(6000, 150000))
     drive(ctx, rec, "csv", csv_case(), check_csv, ctx.n(500, 6000))
     drive(ctx, rec, "netcdf", csv_case(), check_netcdf, ctx.n(400, 5000))
+    drive_enum(ctx, rec, "marker", marker_cases(), check_marker, exhaustive=True)
